@@ -23,6 +23,9 @@ CHECKS = {
  "C09": ("exploration", "full-product enumeration of private-name case variants x option bits x whitelists x peer versions x stream states on the real serialiser, canary search over the wire and its independent decryption",
          "E-ENUM", "Every case variant of the private names/prefix x all 64 option sets x 4 whitelist shapes x peer versions around 9.9.0 x {no key, encrypting, keyed-not-encrypting}: the wire bytes and their reference decryption are searched for the private name and a unique canary; without opt-in (or for old peers, reserved-prefix names) nothing may appear; on a keyed-not-encrypting stream the secret may appear only inside frames that open under the key; the real receiver must rebuild the filtered ad and stay framed.",
          "Canary search is textual; reference decryption via refcodec; quick uses 4 of the 6 peer versions.", "DESIGN.md §3 C09"),
+ "C15": ("model_checking", "explicit enumeration of all operation histories up to a depth on two real streams with hand-offs, reference model of 'established and clean', reference decryptor watching nonce continuity",
+         "E-BFS", "All histories of length <= 5 (quick) / 7 (thorough) over 10 operations (messages each way, begin/finish partial send and receive, hand-off of either end) run on fresh real streams; in every state export is attempted on both ends and may succeed only when the reference model says established in both directions with no partial message; all traffic after any chain of hand-offs must round-trip and open under the reference decryptor with strictly continuing nonces; every truncation, wrong magic and wrong version of a blob must be rejected.",
+         "Conservative refusals are recorded, not flagged; corruption of key/IV/counter bytes inside a blob is outside the statement.", "DESIGN.md §3 C15"),
 }
 PENDING = "check not built yet in this session (planned, DESIGN.md section 3); listed here until its check is registered"
 def main():
